@@ -48,7 +48,47 @@ let show_dict d = "(" ^ show_z d.sd_coin_value ^ " " ^ show_bytes d.sd_script_he
                   ^ show_option show_z d.sd_does_seem_spent ^ " " ^ show_option show_z d.sd_block_index_spent ^ ")"
 let show_tfield = function FHex h -> show_bytes h | FInt z -> show_z z
 
+
+(* histories (Model/TxObject.v): history <hash oracle> <tx: 4 tokens> <unspents> <op> <op> ...   op fields separated by '/' *)
+let arg_flags t = (t.[0] = 'T', t.[1] = 'T', t.[2] = 'T')
+let arg_op t = match split '/' t with
+  | ["mw"; i; w] -> Mut (MSetWitness (arg_nat i, arg_wit w))
+  | ["aw"; i; w] -> Mut (MAssignWitness (arg_nat i, arg_wit w))
+  | ["as"; i; s] -> Mut (MAssignInScript (arg_nat i, arg_bytes s))
+  | ["ah"; i; s] -> Mut (MAssignInHash (arg_nat i, arg_bytes s))
+  | ["ai"; i; z] -> Mut (MAssignInIndex (arg_nat i, arg_z z))
+  | ["aq"; i; z] -> Mut (MAssignInSeq (arg_nat i, arg_z z))
+  | ["pi"; x] -> Mut (MAppendIn (arg_txin x))
+  | ["xi"] -> Mut MPopIn
+  | ["ci"] -> Mut MClearIns
+  | ["po"; o] -> Mut (MAppendOut (arg_txout o))
+  | ["xo"] -> Mut MPopOut
+  | ["co"] -> Mut MClearOuts
+  | ["ov"; i; z] -> Mut (MAssignOutValue (arg_nat i, arg_z z))
+  | ["os"; i; s] -> Mut (MAssignOutScript (arg_nat i, arg_bytes s))
+  | ["av"; z] -> Mut (MAssignVersion (arg_z z))
+  | ["al"; z] -> Mut (MAssignLockTime (arg_z z))
+  | ["su"; us] -> Mut (MSetUnspents (arg_list arg_unspent us))
+  | ["au"; us] -> Mut (MAssignUnspents (arg_list arg_unspent us))
+  | ["ob"; fl] -> let (a, b, c) = arg_flags fl in Obs (OAsBin (a, b, c))
+  | ["ox"; fl] -> let (a, b, c) = arg_flags fl in Obs (OAsHex (a, b, c))
+  | ["oh"; ht] -> Obs (OHash (arg_optz ht))
+  | ["ow"] -> Obs OWHash
+  | ["ok"] -> Obs OBlankedHash
+  | ["oi"] -> Obs OId
+  | ["oj"] -> Obs OWId
+  | ["on"] -> Obs OHasWitness
+  | ["oc"] -> Obs OIsCoinbase
+  | ["om"] -> Obs OMissingUnspents
+  | ["ck"; mm; ms] -> Obs (OCheck (arg_z mm, arg_z ms))
+  | _ -> failwith ("arg_op " ^ t)
+let show_oval = function RBytes b -> show_bytes b | RBool b -> show_bool b | RNone -> "N"
+let history h v ins outs l us ops =
+  show_list (show_outcome show_oval)
+    (run (oracle h) (List.map arg_op ops) { ob_tx = arg_tx v ins outs l; ob_unspents = arg_list arg_unspent us })
+
 let dispatch f args = match f, args with
+  | "history", h :: v :: ins :: outs :: l :: us :: ops -> history h v ins outs l us ops
   | "parse_tx", [a; s] -> show_outcome (show_pair show_tx show_bytes) (parse_tx (arg_bool a) (arg_bytes s))
   | "parse_tx_ltc", [s] -> show_outcome (show_pair show_tx show_bytes) (parse_tx_ltc (arg_bytes s))
   | "from_bin", [s] -> show_outcome (show_pair show_tx (show_list (show_option show_txout))) (tx_from_bin (arg_bytes s))
